@@ -134,7 +134,7 @@ ElemV(s, fill, mode) ==
   LET pad   == IF fill > 130 THEN 130 ELSE fill        \* header octets may lie in the fill
       h     == Hdr(s \o [x \in 1..pad |-> 0])
       hdrok == h.ok /\ h.id.canon /\ (IF mode = "strict" THEN h.lcanon ELSE h.lperm)
-      full  == hdrok /\ ~h.lbig /\ h.hlen + h.len <= Len(s) + fill
+      full  == hdrok /\ ~h.lbig /\ h.len <= Len(s) + fill - h.hlen    \* (no sum: h.len may be 2^31-1)
       stop  == IF full THEN (IF h.hlen + h.len <= Len(s) THEN h.hlen + h.len ELSE Len(s)) ELSE 0
   IN [ok |-> full, h |-> h,
       content |-> IF full THEN SubSeq(s, h.hlen + 1, stop) ELSE <<>>,   \* the materialised part
